@@ -71,6 +71,8 @@ TEMPLATES = {
     "tx_eq": (lambda i, j: [_sb(".", "=", "ab")], lambda i, j: [S(".", "=", "ab")], False, False, "[.=ab] (text)"),
     "tx_lt": (lambda i, j: [_sb(".", "<", "b")], lambda i, j: [S(".", "<", "b")], False, False, "[.<b] (text)"),
     "tx_ge": (lambda i, j: [_sb(".", ">=", "ab")], lambda i, j: [S(".", ">=", "ab")], False, False, "[.>=ab] (text)"),
+    "el_eq_p": (lambda i, j: [_sb(".", "=", "p")], lambda i, j: [S(".", "=", "p")], False, False, "[.=p] (term names a key of a hash member)"),
+    "el_neq_p": (lambda i, j: [_sb(".", "=", "p", True)], lambda i, j: [S(".", "=", "p", True)], False, False, "[.!=p]"),
     "el_sw": (lambda i, j: [_sb(".", "^", "-")], lambda i, j: [S(".", "^", "-")], False, False, "[.^-]"),
     "el_ew": (lambda i, j: [_sb(".", "$", "1")], lambda i, j: [S(".", "$", "1")], False, False, "[.$1]"),
     "el_has": (lambda i, j: [_sb(".", "%", "1")], lambda i, j: [S(".", "%", "1")], False, False, "[.%1]"),
@@ -221,7 +223,7 @@ FLOATS = [("LFLT", t) for t in ("el_le_f", "el_ge_f", "el_nlt_f", "el_gt_f", "el
          [("AOHF", t) for t in ("at_le_f", "at_nge_f", "at_gt", "at_le", "p", "p_el_gt")]
 TEXTS = [("LTXT", t) for t in ("tx_sw", "tx_ew", "tx_has", "tx_nhas", "tx_eq", "tx_lt", "tx_ge", "idx", "star")] + \
         [("MTXT", t) for t in ("tx_sw", "tx_eq", "tx_lt", "key_sw", "star", "deep")]
-OTHER = [("LL", "idx_idx"), ("LL", "star_idx"), ("LL", "star"), ("LL", "deep"), ("LL", "idx"), ("LMIX", "idx"),
+OTHER = [("LMIX", "el_eq_p"), ("LMIX", "el_neq_p"), ("LHASH", "el_eq_p"), ("LMIX", "el_eqx"), ("LL", "idx_idx"), ("LL", "star_idx"), ("LL", "star"), ("LL", "deep"), ("LL", "idx"), ("LMIX", "idx"),
          ("LMIX", "p"), ("LMIX", "deep"), ("LMIX", "star"), ("LHASH", "p"), ("LHASH", "star_p"), ("LSTR", "idx"),
          ("LSTR", "deep"), ("SET", "p"), ("SET", "self"), ("SETI", "k1"), ("ROOTSCALAR", "self"), ("ROOTSCALAR", "el_gt"),
          ("SCAL", "el_gt"), ("SCAL", "el_eq"), ("L3", "el_eqi"), ("AOH3", "at_gei")]
@@ -231,7 +233,7 @@ QUICK = [("L3", "idx"), ("ML3", "barekey"), ("ML4", "slice"), ("L3", "el_gt"), (
          ("M3", "key_sw"), ("M3", "hslice"), ("MM", "at_gt"), ("MINT", "k1"), ("HOH", "star_at"), ("MM", "deep"),
          ("LL", "idx_idx"), ("LMIX", "p"), ("M3", "star"), ("SCAL", "el_gt"), ("AOHX", "p_el_gt"), ("MSTRNUM", "k1"),
          ("AOH3", "slice_p"), ("LFLT", "el_le_f"), ("LFLT", "el_ge_f"), ("AOHF", "at_le_f"), ("AOHF", "at_nge_f"),
-         ("LTXT", "tx_sw"), ("LTXT", "tx_lt"), ("LTXT", "tx_nhas")]
+         ("LTXT", "tx_sw"), ("LTXT", "tx_lt"), ("LTXT", "tx_nhas"), ("LMIX", "el_eq_p"), ("LHASH", "el_eq_p")]
 
 
 def _mk(shape, template, tier):
